@@ -168,7 +168,7 @@ def run_per_rule(case, ctx, tier="quick"):
                 rule.subsamplers = tuple(real_sampler(c) for c in children)
                 ruleforms.bind_brute(rule)
                 try:
-                    dist, _ = enumrng.exact_distribution(lambda: str(rule.random_sample_object_of_size(n, **params)), max_leaves=4000)
+                    dist, _ = enumrng.exact_distribution(lambda: str(rule.random_sample_object_of_size(n, **speccheck.any_order(params, n))), max_leaves=4000)
                 except enumrng.TooManyLeaves:
                     dist = None
                     ctx.label("rule-distribution-too-large")
@@ -227,7 +227,7 @@ def run_whole_spec(case, ctx, tier="quick"):
                 objs = byparam.get(key, [])
                 if not objs:
                     try:
-                        res = spec.random_sample_object_of_size(n, **params)
+                        res = spec.random_sample_object_of_size(n, **speccheck.any_order(params, n))
                     except InvalidOperationError:
                         continue
                     except NotImplementedError:
@@ -243,7 +243,7 @@ def run_whole_spec(case, ctx, tier="quick"):
                     continue
                 try:
                     dist, leaves = exact_distribution(
-                        lambda: str(spec.random_sample_object_of_size(n, **params)), min(max_leaves, budget[0])
+                        lambda: str(spec.random_sample_object_of_size(n, **speccheck.any_order(params, n))), min(max_leaves, budget[0])
                     )
                     budget[0] -= leaves
                 except TooManyLeaves:
